@@ -419,8 +419,14 @@ def project_mclmc(sc, run):
             if all(math.isfinite(x) for x in g + p0 + [step]) and any(x != 0 for x in g):
                 try:
                     q1, d1 = esh_closed_form(g, p0, step)
-                    ok = all(abs(a - b) <= 1e-9 for a, b in zip(p1, q1))
-                    ok = ok and abs(dke - d1) <= 1e-9 * (1 + abs(d1) + abs(ke0))
+                    # the closed form mixes e^delta and e^-delta (delta = eps |g| / (d - 1)): two evaluations of the same
+                    # formula agree to about eps_machine * e^(2 delta); beyond delta = 12 nothing can be compared
+                    delta = abs(step) * math.sqrt(sum(x * x for x in g)) / max(len(g) - 1, 1)
+                    if delta > 12:
+                        raise OverflowError
+                    tol = max(1e-9, 64 * 2.3e-16 * math.exp(2 * delta))
+                    ok = all(abs(a - b) <= tol for a, b in zip(p1, q1))
+                    ok = ok and abs(dke - d1) <= tol * (1 + abs(d1) + abs(ke0))
                     ok = ok and abs(sum(x * x for x in p1) - 1.0) <= 1e-9
                 except (OverflowError, ValueError, ZeroDivisionError):
                     ok = True   # outside the range where the closed form can be evaluated independently
